@@ -1429,6 +1429,8 @@ void knobs_for(const std::string &prop, Knobs &K, Rng &r)
 
 } // namespace
 
+bool g_gen_thorough = false;
+
 uint64_t gen_enum_count(const std::string &prop) { return prop == "C10" ? 63 * 10 * 6 : prop == "C12" ? 256 * 100 : 0; }
 
 Plan gen_plan(const std::string &prop, uint64_t seed, uint64_t idx, int qcap)
@@ -1441,6 +1443,14 @@ Plan gen_plan(const std::string &prop, uint64_t seed, uint64_t idx, int qcap)
         bool c12e = prop == "C12" && idx < gen_enum_count(prop);
         Gen g(mix_seed(seed ^ ph, (c12e ? (idx / 256) + (1ULL << 40) : idx) * 2654435761ULL + 17));
         knobs_for(prop, g.K, g.r);
+        if (g_gen_thorough && prop != "C16" && prop != "C17") {
+                // deeper, not only more: longer line/event histories, larger tables, more phases
+                g.K.p_long_run = std::min(0.25, g.K.p_long_run * 4 + 0.02);
+                g.K.max_lines += 6;
+                g.K.p_many_cmds = std::min(0.2, g.K.p_many_cmds * 2);
+                g.K.p_phases = std::min(0.6, g.K.p_phases * 1.5);
+                g.K.max_svc_gap += 40;
+        }
         g.p.prop = prop;
         g.p.seed = seed;
         g.p.idx = idx;
